@@ -67,3 +67,42 @@ Theorem src_decode64_tie : forall fuel buf cp, SourceDecodeProofs.bytes_ok buf -
   sd_Decode64 fuel buf cp = OK (decode64 (firstn 8 (skipn (Z.to_nat cp) buf))).
 Proof. exact sd_Decode64_tie. Qed.
 Print Assumptions src_decode64_tie.
+
+From CCTZ Require Import C10Whole.
+(* second half of C12 ("... or yields a zone on which every lookup, conversion and transition query is likewise well-defined"):
+   true of every accepted file inside shift_safe, and FALSE without it - findings F9/F9b, machine-checked *)
+Theorem c12_accepted_zone_total : forall bs z,
+  load_bytes bs = OK (Some z) -> shift_safe z = true ->
+  (forall hint t, int64 t -> exists r, break_time z hint t = OK r) /\
+  (forall hint cs, valid_fields cs = true -> int64 (fy cs) -> exists r, make_time z hint cs = OK r) /\
+  (forall hint cs, valid_fields cs = true -> int64 (fy cs) -> exists r, convert_cs z hint cs = OK r) /\
+  (forall t, int64 t -> exists r, next_transition z t = OK r) /\
+  (forall t, int64 t -> exists r, prev_transition z t = OK r).
+Proof. exact C10Whole.c10_total_every_accepted_file. Qed.
+Print Assumptions c12_accepted_zone_total.
+Theorem c12_every_query_defined_refuted :
+  ~ (forall bs, all_bytes bs = true ->
+       load_bytes bs = OK None \/
+       exists z, load_bytes bs = OK (Some z) /\
+         (forall hint t, int64 t -> exists r, break_time z hint t = OK r)).
+Proof. exact C10Whole.c12_every_query_defined_refuted. Qed.
+Print Assumptions c12_every_query_defined_refuted.
+
+From CCTZ Require Import SourceDecodeProofs SourceLoad SourceLoadProofs.
+(* THE LOADER AS CLANG READS IT NOW (SourceLoad.v, regenerated by gen/ast_translate_load.py from the current
+   time_zone_info.cc: Header::Build, Header::DataLength, GetTransitionType, ExtendTransitions and Load(ZoneInfoSource *zip)
+   itself - the source as a byte list + cursor, unset header members as Err Uninit, vector aliases invalidated on resize,
+   byte pointers with strict bounds): whatever the hand-written load_bytes decides for a byte string - accept with zone z,
+   or reject - the source-derived Load decides the same and builds the same zone. *)
+Theorem c12_src_load_accepts : forall bs z ver zver d0 a0 f0 e0 ly0 fuel,
+  bytes_ok bs -> Z.of_nat (length bs) < 2 ^ 62 -> (length bs + 1300 <= fuel)%nat ->
+  load_bytes bs = OK (Some z) ->
+  exists ver' rest, sl_Load fuel (mkZone [] [] d0 a0 f0 e0 ly0) ver bs zver = OK (true, load_result ly0 z, ver', rest).
+Proof. exact sl_Load_accepts. Qed.
+Print Assumptions c12_src_load_accepts.
+Theorem c12_src_load_rejects : forall bs ver zver d0 a0 f0 e0 ly0 fuel,
+  bytes_ok bs -> Z.of_nat (length bs) < 2 ^ 62 -> (length bs + 1300 <= fuel)%nat ->
+  load_bytes bs = OK None ->
+  exists z' ver' rest, sl_Load fuel (mkZone [] [] d0 a0 f0 e0 ly0) ver bs zver = OK (false, z', ver', rest).
+Proof. exact sl_Load_rejects. Qed.
+Print Assumptions c12_src_load_rejects.
